@@ -1,5 +1,5 @@
 (* CodecFacts.v — inverse and stability laws of the library's metadata codecs (C15). *)
-From PNA Require Import Base Name Codec BaseFacts.
+From PNA Require Import Base Name Codec BaseFacts NameFacts.
 Require Import ZArith ZifyN ZifyNat ZifyBool.
 Open Scope N_scope.
 
@@ -101,3 +101,425 @@ Proof.
   rewrite take_app by apply be_length. cbn [bind].
   rewrite of_be_be by exact H2. rewrite <- (app_nil_r v) at 2. rewrite takeN_app. reflexivity.
 Qed.
+
+(* ---- take, inverted -------------------------------------------------------------------------------- *)
+Lemma take_ok n bs a r : take n bs = Ok (a, r) -> bs = a ++ r /\ length a = n.
+Proof.
+  unfold take. destruct (Nat.leb_spec n (length bs)) as [Hle|]; [|discriminate]. intros [= <- <-].
+  split; [symmetry; apply firstn_skipn | apply firstn_length_le; exact Hle].
+Qed.
+
+Lemma takeN_ok n bs a r : takeN n bs = Ok (a, r) -> bs = a ++ r /\ len a = n.
+Proof.
+  unfold takeN. destruct (N.leb_spec n (len bs)) as [Hle|]; [|discriminate]. intros [= <- <-].
+  split; [symmetry; apply firstn_skipn|]. unfold len in *. rewrite firstn_length_le by lia. lia.
+Qed.
+
+Lemma take_all n a : length a = n -> take n a = Ok (a, []).
+Proof. intros H. rewrite <- (app_nil_r a) at 1. apply take_app. exact H. Qed.
+
+Lemma of_be_single x : of_be [x] = b2n x.
+Proof. unfold of_be. cbn [fold_left]. lia. Qed.
+
+Lemma of_be_lt_len l k : length l = k -> of_be l < 256 ^ N.of_nat k.
+Proof. intros <-. apply of_be_lt. Qed.
+
+(* ---- FHED -------------------------------------------------------------------------------------------- *)
+(* the encoder writes `minor` twice, so only headers with major = minor survive; the name must be
+   what the parser would produce: valid UTF-8 and already sanitised *)
+Definition wf_fhed h :=
+  f_major h = f_minor h /\ f_minor h < 256 /\ utf8_valid (f_name h) = true /\ sanitize_name (f_name h) = f_name h.
+
+Lemma fhed_inv h : wf_fhed h -> fhed_of_bytes (fhed_to_bytes h) = Ok h.
+Proof.
+  intros (H1 & H2 & H3 & H4). destruct h as [ma mi k c e m nm]; cbn [f_major f_minor f_name] in *. subst ma.
+  unfold fhed_to_bytes, fhed_of_bytes. cbn [f_minor f_kind f_comp f_enc f_mode f_name app].
+  rewrite !b2n_n2b_small by (assumption || apply kind_lt || apply comp_lt || apply enc_lt || apply mode_lt).
+  rewrite kind_inv, comp_inv, enc_inv, mode_inv. cbn [opt_res bind].
+  rewrite name_of_bytes_fixed by assumption. reflexivity.
+Qed.
+
+Lemma fhed_dec_wf bs h : fhed_of_bytes bs = Ok h ->
+  f_major h < 256 /\ f_minor h < 256 /\ utf8_valid (f_name h) = true /\ sanitize_name (f_name h) = f_name h.
+Proof.
+  unfold fhed_of_bytes. do 6 (destruct bs as [|? bs]; try discriminate).
+  destruct (kind_of_n _); [|discriminate]. destruct (comp_of_n _); [|discriminate].
+  destruct (enc_of_n _); [|discriminate]. destruct (mode_of_n _); [|discriminate]. cbn [opt_res bind].
+  destruct (name_of_bytes bs) as [n| |] eqn:En; try discriminate. cbn [bind]. intros [= <-].
+  cbn [f_major f_minor f_name]. apply name_of_bytes_ok in En. destruct En as (Hu & Hs & _).
+  repeat split; try apply b2n_lt; assumption.
+Qed.
+
+Lemma fhed_stable bs h : fhed_of_bytes bs = Ok h -> f_major h = f_minor h ->
+  fhed_of_bytes (fhed_to_bytes h) = Ok h.
+Proof.
+  intros H Hm. apply fhed_inv. destruct (fhed_dec_wf _ _ H) as (_ & H2 & H3 & H4).
+  unfold wf_fhed. auto.
+Qed.
+
+(* without the premise major = minor: re-encoding forgets the major version, nothing else *)
+Lemma fhed_stable_gen bs h : fhed_of_bytes bs = Ok h ->
+  fhed_of_bytes (fhed_to_bytes h) =
+  Ok {| f_major := f_minor h; f_minor := f_minor h; f_kind := f_kind h; f_comp := f_comp h;
+        f_enc := f_enc h; f_mode := f_mode h; f_name := f_name h |}.
+Proof.
+  intros H. destruct (fhed_dec_wf _ _ H) as (_ & H2 & H3 & H4).
+  rewrite <- (fhed_inv {| f_major := f_minor h; f_minor := f_minor h; f_kind := f_kind h; f_comp := f_comp h;
+        f_enc := f_enc h; f_mode := f_mode h; f_name := f_name h |}) by (unfold wf_fhed; cbn; auto).
+  reflexivity.
+Qed.
+
+(* exact bytes, when the stored name was already in sanitised form *)
+Lemma fhed_stable_bytes b0 b1 b2 b3 b4 b5 name h :
+  fhed_of_bytes (b0 :: b1 :: b2 :: b3 :: b4 :: b5 :: name) = Ok h -> b0 = b1 -> sanitize_name name = name ->
+  fhed_to_bytes h = b0 :: b1 :: b2 :: b3 :: b4 :: b5 :: name.
+Proof.
+  unfold fhed_of_bytes. intros H -> Hs.
+  destruct (kind_of_n _) eqn:Ek; [|discriminate]. destruct (comp_of_n _) eqn:Ec; [|discriminate].
+  destruct (enc_of_n _) eqn:Ee; [|discriminate]. destruct (mode_of_n _) eqn:Em; [|discriminate].
+  cbn [opt_res bind] in H.
+  destruct (name_of_bytes name) as [n| |] eqn:En; try discriminate. cbn [bind] in H. injection H as <-.
+  apply name_of_bytes_ok in En. destruct En as (_ & _ & ->).
+  unfold fhed_to_bytes. cbn [f_minor f_kind f_comp f_enc f_mode f_name app].
+  rewrite (kind_stable _ _ Ek), (comp_stable _ _ Ec), (enc_stable _ _ Ee), (mode_stable _ _ Em), !n2b_b2n, Hs.
+  reflexivity.
+Qed.
+
+Lemma fhed_major_refuted : exists bs h,
+  fhed_of_bytes bs = Ok h /\ fhed_of_bytes (fhed_to_bytes h) <> Ok h.
+Proof.
+  exists [x01; x00; x00; x00; x00; x00; x61].
+  exists {| f_major := 1; f_minor := 0; f_kind := KFile; f_comp := CNo; f_enc := ENo; f_mode := MCbc; f_name := [x61] |}.
+  split; [vm_compute; reflexivity|]. vm_compute. discriminate.
+Qed.
+
+Example fhed_inv_ex :
+  wf_fhed {| f_major := 0; f_minor := 0; f_kind := KSymlink; f_comp := CXz; f_enc := ECamellia; f_mode := MCtr;
+             f_name := lit "dir/caf" ++ [xc3; xa9] |}.
+Proof. vm_compute. repeat split; reflexivity. Qed.
+
+Example fhed_stable_ex :
+  let bs := [x00; x00; x01; x02; x01; x01] ++ lit "/a/../b/" in
+  exists h, fhed_of_bytes bs = Ok h /\ f_major h = f_minor h /\ f_name h = lit "a/b".
+Proof. eexists. vm_compute. repeat split; reflexivity. Qed.
+
+(* ---- SHED, exact bytes --------------------------------------------------------------------------------- *)
+Lemma shed_stable bs h : shed_of_bytes bs = Ok h -> shed_to_bytes h = bs.
+Proof.
+  unfold shed_of_bytes. do 6 (destruct bs as [|? bs]; try discriminate).
+  destruct (comp_of_n _) eqn:Ec; [|discriminate]. destruct (enc_of_n _) eqn:Ee; [|discriminate].
+  destruct (mode_of_n _) eqn:Em; [|discriminate]. cbn [opt_res bind]. intros [= <-].
+  unfold shed_to_bytes. cbn [s_major s_minor s_comp s_enc s_mode].
+  rewrite (comp_stable _ _ Ec), (enc_stable _ _ Ee), (mode_stable _ _ Em), !n2b_b2n. reflexivity.
+Qed.
+
+Example shed_stable_ex : exists h, shed_of_bytes [x07; x09; x04; x02; x01] = Ok h /\ s_comp h = CXz.
+Proof. eexists. vm_compute. split; reflexivity. Qed.
+
+(* ---- fPRM ------------------------------------------------------------------------------------------------- *)
+(* the domain of the format: u64 ids, u16 mode, names of at most 255 bytes (one length byte), UTF-8 *)
+Definition wf_perm p :=
+  p_uid p < 2 ^ 64 /\ p_gid p < 2 ^ 64 /\ p_mode p < 2 ^ 16 /\
+  len (p_uname p) <= 255 /\ len (p_gname p) <= 255 /\
+  utf8_valid (p_uname p) = true /\ utf8_valid (p_gname p) = true.
+
+Lemma perm_inv p : wf_perm p -> perm_of_bytes (perm_to_bytes p) = Ok p.
+Proof.
+  intros (H1 & H2 & H3 & H4 & H5 & H6 & H7).
+  destruct p as [uid un gid gn m]; cbn [p_uid p_uname p_gid p_gname p_mode] in *.
+  unfold perm_to_bytes, perm_of_bytes; cbn [p_uid p_uname p_gid p_gname p_mode].
+  unfold be64, be16.
+  rewrite take_app by apply be_length. cbn [bind].
+  rewrite take_app by reflexivity. cbn [bind].
+  rewrite of_be_single, b2n_n2b_small by lia. rewrite takeN_app. cbn [bind]. rewrite H6. cbn [negb].
+  rewrite take_app by apply be_length. cbn [bind].
+  rewrite take_app by reflexivity. cbn [bind].
+  rewrite of_be_single, b2n_n2b_small by lia. rewrite takeN_app. cbn [bind]. rewrite H7. cbn [negb].
+  rewrite take_all by apply be_length. cbn [bind].
+  rewrite !of_be_be by assumption. reflexivity.
+Qed.
+
+(* what a successful decode tells: the value is in the domain, and the input starts with its encoding *)
+Lemma perm_dec bs p : perm_of_bytes bs = Ok p -> wf_perm p /\ exists rest, bs = perm_to_bytes p ++ rest.
+Proof.
+  unfold perm_of_bytes.
+  destruct (take 8 bs) as [[uid r1]| |] eqn:E1; try discriminate; cbn [bind].
+  destruct (take 1 r1) as [[ul r2]| |] eqn:E2; try discriminate; cbn [bind].
+  destruct (takeN (of_be ul) r2) as [[un r3]| |] eqn:E3; try discriminate; cbn [bind].
+  destruct (utf8_valid un) eqn:Eu; [|discriminate]; cbn [negb].
+  destruct (take 8 r3) as [[gid r4]| |] eqn:E4; try discriminate; cbn [bind].
+  destruct (take 1 r4) as [[gl r5]| |] eqn:E5; try discriminate; cbn [bind].
+  destruct (takeN (of_be gl) r5) as [[gn r6]| |] eqn:E6; try discriminate; cbn [bind].
+  destruct (utf8_valid gn) eqn:Eg; [|discriminate]; cbn [negb].
+  destruct (take 2 r6) as [[m r7]| |] eqn:E7; try discriminate; cbn [bind].
+  intros [= <-].
+  apply take_ok in E1, E2, E4, E5, E7. apply takeN_ok in E3, E6.
+  destruct E1 as [-> L1], E2 as [-> L2], E3 as [-> L3], E4 as [-> L4], E5 as [-> L5], E6 as [-> L6], E7 as [-> L7].
+  destruct ul as [|u [|? ?]]; try discriminate L2. destruct gl as [|g [|? ?]]; try discriminate L5.
+  rewrite of_be_single in L3, L6.
+  split.
+  - unfold wf_perm; cbn [p_uid p_uname p_gid p_gname p_mode].
+    pose proof (b2n_lt u). pose proof (b2n_lt g).
+    pose proof (of_be_lt_len _ _ L1) as B1. pose proof (of_be_lt_len _ _ L4) as B4. pose proof (of_be_lt_len _ _ L7) as B7.
+    change (256 ^ N.of_nat 8) with (2 ^ 64) in B1, B4. change (256 ^ N.of_nat 2) with (2 ^ 16) in B7.
+    repeat split; try assumption; lia.
+  - exists r7. unfold perm_to_bytes; cbn [p_uid p_uname p_gid p_gname p_mode].
+    unfold be64, be16. rewrite L3, L6, !n2b_b2n.
+    rewrite <- L1 at 1. rewrite <- L4 at 1. rewrite <- L7 at 1. rewrite !be_of_be.
+    rewrite <- !app_assoc. reflexivity.
+Qed.
+
+Lemma perm_dec_wf bs p : perm_of_bytes bs = Ok p -> wf_perm p.
+Proof. intros H. apply (perm_dec _ _ H). Qed.
+
+Lemma perm_stable bs p : perm_of_bytes bs = Ok p -> perm_of_bytes (perm_to_bytes p) = Ok p.
+Proof. intros H. apply perm_inv. eapply perm_dec_wf. exact H. Qed.
+
+(* decoding ignores trailing bytes, so the bytes come back only as a prefix of the input *)
+Lemma perm_stable_prefix bs p : perm_of_bytes bs = Ok p -> exists rest, bs = perm_to_bytes p ++ rest.
+Proof. intros H. apply (perm_dec _ _ H). Qed.
+
+(* D22: the length byte is `len as u8`; a 256-byte user name is written with length 0 and the
+   chunk decodes, without an error, to a different value *)
+Definition long_name_perm : perm :=
+  {| p_uid := 1000; p_uname := repeat x75 256; p_gid := 100; p_gname := lit "g"; p_mode := 420 |}.
+
+Lemma perm_refuted_long_name :
+  len (p_uname long_name_perm) = 256 /\ utf8_valid (p_uname long_name_perm) = true /\
+  perm_of_bytes (perm_to_bytes long_name_perm) =
+    Ok {| p_uid := 1000; p_uname := []; p_gid := 0x7575757575757575; p_gname := repeat x75 117; p_mode := 0x7575 |} /\
+  perm_of_bytes (perm_to_bytes long_name_perm) <> Ok long_name_perm.
+Proof.
+  split; [vm_compute; reflexivity|]. split; [vm_compute; reflexivity|].
+  assert (E : perm_of_bytes (perm_to_bytes long_name_perm) =
+    Ok {| p_uid := 1000; p_uname := []; p_gid := 0x7575757575757575; p_gname := repeat x75 117; p_mode := 0x7575 |})
+    by (vm_compute; reflexivity).
+  split; [exact E|]. rewrite E. unfold long_name_perm. intros H. discriminate H.
+Qed.
+
+Example perm_inv_ex :
+  wf_perm {| p_uid := 1000; p_uname := lit "user1"; p_gid := 100; p_gname := lit "group1"; p_mode := 420 |}.
+Proof. vm_compute. repeat split; (reflexivity || discriminate). Qed.
+
+Example perm_stable_ex : exists p,
+  perm_of_bytes (be64 7 ++ [x01] ++ lit "u" ++ be64 8 ++ [x00] ++ be16 493 ++ lit "trailing") = Ok p /\ p_mode p = 493.
+Proof. eexists. vm_compute. split; reflexivity. Qed.
+
+(* ---- xATR, stability ----------------------------------------------------------------------------------------- *)
+Lemma xattr_dec bs x : xattr_of_bytes bs = Ok x -> wf_xattr x /\ exists rest, bs = xattr_to_bytes x ++ rest.
+Proof.
+  unfold xattr_of_bytes.
+  destruct (take 4 bs) as [[l r1]| |] eqn:E1; try discriminate; cbn [bind].
+  destruct (takeN (of_be l) r1) as [[nm r2]| |] eqn:E2; try discriminate; cbn [bind].
+  destruct (utf8_valid nm) eqn:Eu; [|discriminate]; cbn [negb].
+  destruct (take 4 r2) as [[l2 r3]| |] eqn:E3; try discriminate; cbn [bind].
+  destruct (takeN (of_be l2) r3) as [[v r4]| |] eqn:E4; try discriminate; cbn [bind].
+  intros [= <-].
+  apply take_ok in E1, E3. apply takeN_ok in E2, E4.
+  destruct E1 as [-> L1], E2 as [-> L2], E3 as [-> L3], E4 as [-> L4].
+  split.
+  - unfold wf_xattr; cbn [x_name x_value].
+    pose proof (of_be_lt_len _ _ L1) as B1. pose proof (of_be_lt_len _ _ L3) as B3.
+    change (256 ^ N.of_nat 4) with (2 ^ 32) in B1, B3.
+    repeat split; try assumption; lia.
+  - exists r4. unfold xattr_to_bytes; cbn [x_name x_value]. unfold be32. rewrite L2, L4.
+    rewrite <- L1 at 1. rewrite <- L3 at 1. rewrite !be_of_be. rewrite <- !app_assoc. reflexivity.
+Qed.
+
+Lemma xattr_dec_wf bs x : xattr_of_bytes bs = Ok x -> wf_xattr x.
+Proof. intros H. apply (xattr_dec _ _ H). Qed.
+
+Lemma xattr_stable bs x : xattr_of_bytes bs = Ok x -> xattr_of_bytes (xattr_to_bytes x) = Ok x.
+Proof. intros H. apply xattr_inv. eapply xattr_dec_wf. exact H. Qed.
+
+Lemma xattr_stable_prefix bs x : xattr_of_bytes bs = Ok x -> exists rest, bs = xattr_to_bytes x ++ rest.
+Proof. intros H. apply (xattr_dec _ _ H). Qed.
+
+Example xattr_stable_ex : exists x,
+  xattr_of_bytes (be32 9 ++ lit "user.test" ++ be32 2 ++ [x00; xff] ++ lit "junk") = Ok x /\ x_value x = [x00; xff].
+Proof. eexists. vm_compute. split; reflexivity. Qed.
+
+(* ---- fSIZ: minimal big-endian u128 --------------------------------------------------------------------------- *)
+Lemma of_be_drop_zeros l : of_be (drop_zeros l) = of_be l.
+Proof.
+  induction l as [|a l IH]; [reflexivity|]. cbn [drop_zeros].
+  destruct (N.eqb_spec (b2n a) 0) as [E|]; [|reflexivity].
+  rewrite IH, of_be_cons, E. lia.
+Qed.
+
+Lemma drop_zeros_length l : (length (drop_zeros l) <= length l)%nat.
+Proof.
+  induction l as [|a l IH]; [cbn; lia|]. cbn [drop_zeros].
+  destruct (N.eqb (b2n a) 0); cbn [length]; lia.
+Qed.
+
+Lemma lastn_all {A} n (l : list A) : (length l <= n)%nat -> lastn n l = l.
+Proof. intros H. unfold lastn. replace (length l - n)%nat with 0%nat by lia. reflexivity. Qed.
+
+Lemma lastn_length {A} n (l : list A) : (length (lastn n l) <= n)%nat.
+Proof. unfold lastn. rewrite skipn_length. lia. Qed.
+
+Lemma fsiz_to_bytes_length n : (length (fsiz_to_bytes n) <= 16)%nat.
+Proof.
+  unfold fsiz_to_bytes, be128. pose proof (drop_zeros_length (be 16 n)) as H. rewrite be_length in H. exact H.
+Qed.
+
+Lemma fsiz_of_to_mod n : fsiz_of_bytes (fsiz_to_bytes n) = n mod 2 ^ 128.
+Proof.
+  unfold fsiz_of_bytes. rewrite lastn_all by apply fsiz_to_bytes_length.
+  unfold fsiz_to_bytes, be128. rewrite of_be_drop_zeros, of_be_be_mod. reflexivity.
+Qed.
+
+Lemma fsiz_inv n : n < 2 ^ 128 -> fsiz_of_bytes (fsiz_to_bytes n) = n.
+Proof. intros H. rewrite fsiz_of_to_mod. apply N.mod_small. exact H. Qed.
+
+Lemma fsiz_of_bytes_lt bs : fsiz_of_bytes bs < 2 ^ 128.
+Proof.
+  unfold fsiz_of_bytes. pose proof (of_be_lt (lastn 16 bs)) as H. pose proof (lastn_length 16 bs) as L.
+  assert (256 ^ len (lastn 16 bs) <= 256 ^ 16) by (apply N.pow_le_mono_r; unfold len; lia).
+  change (2 ^ 128) with (256 ^ 16). lia.
+Qed.
+
+Lemma fsiz_stable bs :
+  fsiz_to_bytes (fsiz_of_bytes (fsiz_to_bytes (fsiz_of_bytes bs))) = fsiz_to_bytes (fsiz_of_bytes bs).
+Proof. rewrite fsiz_inv by apply fsiz_of_bytes_lt. reflexivity. Qed.
+
+(* the stronger statement: fsiz_to_bytes produces THE minimal big-endian form *)
+Definition no_leading_zero (bs : bytes) : Prop := match bs with b :: _ => b2n b <> 0 | [] => True end.
+Definition minimal_be128 (bs : bytes) : Prop := (length bs <= 16)%nat /\ no_leading_zero bs.
+
+Lemma drop_zeros_nlz l : no_leading_zero (drop_zeros l).
+Proof.
+  induction l as [|a l IH]; [exact I|]. cbn [drop_zeros].
+  destruct (N.eqb_spec (b2n a) 0) as [|E]; [exact IH|exact E].
+Qed.
+
+Lemma drop_zeros_id l : no_leading_zero l -> drop_zeros l = l.
+Proof.
+  destruct l as [|a l]; [reflexivity|]. cbn [no_leading_zero drop_zeros]. intros H.
+  destruct (N.eqb_spec (b2n a) 0); [contradiction|reflexivity].
+Qed.
+
+Lemma drop_zeros_pad k l : drop_zeros (repeat x00 k ++ l) = drop_zeros l.
+Proof. induction k as [|k IH]; [reflexivity|]. cbn [repeat app drop_zeros]. exact IH. Qed.
+
+Lemma be_pad k l : be (k + length l) (of_be l) = repeat x00 k ++ l.
+Proof.
+  induction k as [|k IH]; [apply be_of_be|].
+  cbn [Nat.add be repeat app]. rewrite IH. f_equal.
+  pose proof (of_be_lt l) as H.
+  assert (256 ^ len l <= 256 ^ N.of_nat (k + length l)) by (apply N.pow_le_mono_r; unfold len; lia).
+  rewrite N.div_small by lia. reflexivity.
+Qed.
+
+Lemma fsiz_minimal_to n : minimal_be128 (fsiz_to_bytes n).
+Proof. split; [apply fsiz_to_bytes_length | apply drop_zeros_nlz]. Qed.
+
+Lemma fsiz_minimal_stable bs : minimal_be128 bs -> fsiz_to_bytes (fsiz_of_bytes bs) = bs.
+Proof.
+  intros [L Z]. unfold fsiz_of_bytes, fsiz_to_bytes, be128. rewrite lastn_all by exact L.
+  replace 16%nat with ((16 - length bs) + length bs)%nat at 1 by lia.
+  rewrite be_pad, drop_zeros_pad. apply drop_zeros_id. exact Z.
+Qed.
+
+Lemma fsiz_minimal :
+  (forall n, minimal_be128 (fsiz_to_bytes n) /\ fsiz_of_bytes (fsiz_to_bytes n) = n mod 2 ^ 128) /\
+  (forall bs, minimal_be128 bs -> fsiz_to_bytes (fsiz_of_bytes bs) = bs).
+Proof. split; [intros n; split; [apply fsiz_minimal_to | apply fsiz_of_to_mod] | exact fsiz_minimal_stable]. Qed.
+
+Example fsiz_ex : fsiz_to_bytes 0 = [] /\ fsiz_to_bytes 65536 = [x01; x00; x00] /\
+  fsiz_of_bytes (repeat xff 17) = 2 ^ 128 - 1 /\ minimal_be128 [x01; x00; x00].
+Proof. vm_compute. repeat split; (reflexivity || discriminate || lia). Qed.
+
+(* ---- chunk-type property bits --------------------------------------------------------------------------------- *)
+(* a fact about a single byte may be proved by evaluating it on all 256 values *)
+Definition all_bytes : list byte := map (fun n => n2b (N.of_nat n)) (seq 0 256).
+
+Lemma all_bytes_complete b : In b all_bytes.
+Proof.
+  unfold all_bytes. apply in_map_iff. exists (N.to_nat (b2n b)). split.
+  - rewrite N2Nat.id. apply n2b_b2n.
+  - apply in_seq. pose proof (b2n_lt b). lia.
+Qed.
+
+Lemma byte_forall (P : byte -> bool) : forallb P all_bytes = true -> forall b, P b = true.
+Proof. intros H b. rewrite forallb_forall in H. apply H, all_bytes_complete. Qed.
+
+(* bit 5 is the test the code performs: `byte & 32 != 0` *)
+Lemma bit5_land b : bit5 b = negb (N.eqb (N.land (b2n b) 32) 0).
+Proof.
+  apply Bool.eqb_prop. revert b. apply byte_forall. vm_compute. reflexivity.
+Qed.
+
+Lemma bit5_range b : bit5 b = N.leb 32 (b2n b mod 64).
+Proof.
+  apply Bool.eqb_prop. revert b. apply byte_forall. vm_compute. reflexivity.
+Qed.
+
+(* for an ASCII letter, bit 5 is the case bit *)
+Lemma alpha_bit5_lower b : is_alpha b = true -> bit5 b = is_lower b.
+Proof.
+  intros H. apply Bool.eqb_prop. revert b H.
+  assert (A : forall b, implb (is_alpha b) (Bool.eqb (bit5 b) (is_lower b)) = true)
+    by (apply byte_forall; vm_compute; reflexivity).
+  intros b H. specialize (A b). rewrite H in A. exact A.
+Qed.
+
+Lemma alpha_bit5_upper b : is_alpha b = true -> negb (bit5 b) = is_upper b.
+Proof.
+  intros H. apply Bool.eqb_prop. revert b H.
+  assert (A : forall b, implb (is_alpha b) (Bool.eqb (negb (bit5 b)) (is_upper b)) = true)
+    by (apply byte_forall; vm_compute; reflexivity).
+  intros b H. specialize (A b). rewrite H in A. exact A.
+Qed.
+
+(* the four property bits of a chunk type made of ASCII letters (every type the library defines or accepts
+   through ChunkType::private) are the cases of its four letters *)
+Lemma chunk_type_bits a b c d :
+  let ty := [a; b; c; d] in
+  (ty_is_critical ty = negb (bit5 a) /\ ty_is_private ty = bit5 b /\
+   ty_is_reserved ty = bit5 c /\ ty_is_safe_to_copy ty = bit5 d) /\
+  (forallb is_alpha ty = true ->
+   ty_is_critical ty = is_upper a /\ ty_is_private ty = is_lower b /\
+   ty_is_reserved ty = is_lower c /\ ty_is_safe_to_copy ty = is_lower d).
+Proof.
+  cbv zeta. split; [repeat split|].
+  cbn [forallb]. rewrite !andb_true_iff. intros (Ha & Hb & Hc & Hd & _).
+  unfold ty_is_critical, ty_is_private, ty_is_reserved, ty_is_safe_to_copy. cbn [nth].
+  rewrite alpha_bit5_upper, !alpha_bit5_lower by assumption. repeat split.
+Qed.
+
+(* a type accepted by ChunkType::private is private and does not have the reserved bit *)
+Lemma private_check_bits ty : ty_private_check ty = 0 -> length ty = 4%nat ->
+  ty_is_private ty = true /\ ty_is_reserved ty = false.
+Proof.
+  intros H L. destruct ty as [|a [|b [|c [|d [|? ?]]]]]; try discriminate L.
+  unfold ty_private_check in H. cbn [nth] in H.
+  destruct (forallb is_alpha [a; b; c; d]) eqn:Ea; [|discriminate H]. cbn [negb] in H.
+  destruct (is_lower b) eqn:Eb; [|discriminate H]. destruct (is_upper c) eqn:Ec; [|discriminate H].
+  cbn [forallb] in Ea. rewrite !andb_true_iff in Ea. destruct Ea as (Ha & Hb & Hc & Hd & _).
+  unfold ty_is_private, ty_is_reserved. cbn [nth].
+  rewrite alpha_bit5_lower by assumption. split; [exact Eb|].
+  rewrite <- (negb_involutive (bit5 c)), alpha_bit5_upper, Ec by assumption. reflexivity.
+Qed.
+
+(* and conversely the check refuses exactly the others *)
+Lemma private_check_codes ty : length ty = 4%nat ->
+  ty_private_check ty = 0 <->
+  forallb is_alpha ty = true /\ ty_is_private ty = true /\ ty_is_reserved ty = false.
+Proof.
+  intros L. split.
+  - intros H. pose proof (private_check_bits ty H L) as [H1 H2]. repeat split; try assumption.
+    unfold ty_private_check in H. destruct (forallb is_alpha ty); [reflexivity|discriminate H].
+  - intros (Ha & Hp & Hr). destruct ty as [|a [|b [|c [|d [|? ?]]]]]; try discriminate L.
+    unfold ty_private_check. rewrite Ha. cbn [negb nth].
+    cbn [forallb] in Ha. rewrite !andb_true_iff in Ha. destruct Ha as (_ & Hb & Hc & _).
+    unfold ty_is_private, ty_is_reserved in *. cbn [nth] in *.
+    rewrite alpha_bit5_lower in Hp by assumption. rewrite Hp. cbn [negb].
+    rewrite <- alpha_bit5_upper, Hr by assumption. reflexivity.
+Qed.
+
+Example private_check_ex : ty_private_check (lit "myTy") = 0 /\ length (lit "myTy") = 4%nat.
+Proof. vm_compute. split; reflexivity. Qed.
+Example alpha_ex : is_alpha x61 = true /\ is_alpha x5a = true.
+Proof. vm_compute. split; reflexivity. Qed.
